@@ -16,8 +16,9 @@ from vlib import framework
 from vlib.framework import Harness
 from vlib.symx import assume, native
 
-from sqlalchemy import Column, ForeignKey, Integer, Table
-from sqlalchemy.orm import registry, relationship
+from sqlalchemy import Column, ForeignKey, Integer, String, Table
+from sqlalchemy import exc as sa_exc
+from sqlalchemy.orm import attribute_keyed_dict, registry, relationship
 
 PID = "C37"
 
@@ -36,6 +37,26 @@ def _mk_o2m(tag, cc):
         __tablename__="c37c_" + tag, id=Column(Integer, primary_key=True), pid=Column(ForeignKey("c37p_%s.id" % tag)),
         __init__=_ix_init, __repr__=lambda self: "c%d" % self.ix))
     parent.children = relationship(child, back_populates="parent", collection_class=cc)
+    child.parent = relationship(parent, back_populates="children")
+    return _reg.mapped(parent), _reg.mapped(child)
+
+
+DKEYS = ["a", "b", "a"]  # keyed-dict mapping: children 0 and 2 share their key
+
+
+def _ixk_init(self, ix):
+    self.ix = ix
+    self.k = DKEYS[ix]
+
+
+def _mk_o2m_dict():
+    parent = type("C37P_dict", (), dict(
+        __tablename__="c37p_dict", id=Column(Integer, primary_key=True), __init__=_ix_init,
+        __repr__=lambda self: "p%d" % self.ix))
+    child = type("C37C_dict", (), dict(
+        __tablename__="c37c_dict", id=Column(Integer, primary_key=True), pid=Column(ForeignKey("c37p_dict.id")),
+        k=Column(String), __init__=_ixk_init, __repr__=lambda self: "c%d" % self.ix))
+    parent.children = relationship(child, back_populates="parent", collection_class=attribute_keyed_dict("k"))
     child.parent = relationship(parent, back_populates="children")
     return _reg.mapped(parent), _reg.mapped(child)
 
@@ -66,10 +87,11 @@ def _mk_m2m():
     return _reg.mapped(parent), _reg.mapped(child)
 
 
-CLASSES = {"o2m_list": _mk_o2m("list", list), "o2m_set": _mk_o2m("set", set), "o2o": _mk_o2o(), "m2m": _mk_m2m()}
+CLASSES = {"o2m_list": _mk_o2m("list", list), "o2m_set": _mk_o2m("set", set), "o2o": _mk_o2o(), "m2m": _mk_m2m(),
+           "o2m_dict": _mk_o2m_dict()}
 _reg.configure()
-NP = {"o2m_list": 2, "o2m_set": 2, "o2o": 2, "m2m": 2}
-NC = {"o2m_list": 3, "o2m_set": 3, "o2o": 3, "m2m": 2}
+NP = {"o2m_list": 2, "o2m_set": 2, "o2o": 2, "m2m": 2, "o2m_dict": 2}
+NC = {"o2m_list": 3, "o2m_set": 3, "o2o": 3, "m2m": 2, "o2m_dict": 3}
 
 
 def _tracing():
@@ -118,12 +140,12 @@ def _list_steps(side, owners, members, core):
     for o in range(owners):
         out += [("append", side, o, m) for m in ms]
         out += [("remove", side, o, m) for m in ms]
+        out += [("delattr", side, o)]  # del owner.<collection attribute>
         if core == "m2m":
-            out += [("replace", side, o, [1, 0]), ("pop", side, o, None)]
+            out += [("pop", side, o, None)]
         elif core:
             out += [("setitem", side, o, 0, m) for m in ms]
-            out += [("replace", side, o, r) for r in ([0], [1, 0])]
-            out += [("pop", side, o, None)]
+            out += [("replace", side, o, [1, 0]), ("pop", side, o, None)]
         else:
             out += [("insert", side, o, i, m) for i in (0, 1) for m in ms]
             out += [("setitem", side, o, i, m) for i in (0, 1) for m in ms]
@@ -140,6 +162,7 @@ def _set_steps(owners, members, core):
     for o in range(owners):
         out += [("add", "P", o, m) for m in ms]
         out += [("remove", "P", o, m) for m in ms]
+        out += [("delattr", "P", o)]
         if core:
             out += [("replace", "P", o, r) for r in ([0], [1, 0])]
             out += [("pop", "P", o, None)]
@@ -150,6 +173,22 @@ def _set_steps(owners, members, core):
             out += [("update", "P", o, [0, 1]), ("update", "P", o, [2])]
             out += [("difference_update", "P", o, [0, 1]), ("intersection_update", "P", o, [0, 1]),
                     ("symmetric_difference_update", "P", o, [0, 1])]
+    return out
+
+
+def _dict_steps(owners, core):
+    """mutations of the attribute-keyed dict ``parent.children`` (key = child.k; children 0 and 2 share "a")"""
+    out = []
+    for o in range(owners):
+        out += [("dset", "P", o, m) for m in range(3)]  # d[c.k] = c
+        out += [("dpop_default", "P", o, "a"), ("popitem", "P", o), ("delattr", "P", o)]
+        if not core:
+            out += [("ddel", "P", o, m) for m in range(3)]  # del d[c.k]
+            out += [("dpop", "P", o, k) for k in ("a", "b")] + [("dpop_default", "P", o, "b")]
+            out += [("setdefault", "P", o, m) for m in range(3)]
+            out += [("update_map", "P", o, [0, 1]), ("update_map", "P", o, [2]), ("update_pairs", "P", o, [2, 1])]
+            out += [("clear", "P", o)]
+            out += [("replace", "P", o, r) for r in ([], [0], [0, 1], [1, 2])]
     return out
 
 
@@ -168,6 +207,8 @@ def steps_of(kind, alpha):
         return _list_steps("P", np_, nc, core) + _scalar_steps("C", nc, np_)
     if kind == "o2m_set":
         return _set_steps(np_, nc, core) + _scalar_steps("C", nc, np_)
+    if kind == "o2m_dict":
+        return _dict_steps(np_, core) + _scalar_steps("C", nc, np_)
     if kind == "o2o":
         return _scalar_steps("P", np_, NC[kind]) + _scalar_steps("C", NC[kind], np_)
     if kind == "m2m":
@@ -177,8 +218,9 @@ def steps_of(kind, alpha):
 
 # initial configurations: parent index (or None) of each child, established by plain appends / adds
 INITS = {
-    "o2m_list": [[None, None, None], [0, None, None], [0, 0, None], [0, 1, None], [1, 0, 0]],
-    "o2m_set": [[None, None, None], [0, None, None], [0, 0, None], [0, 1, None], [1, 0, 0]],
+    "o2m_list": [[None, None, None], [0, None, None], [0, 0, None], [0, 1, None], [1, 0, 0], [0, 0, 1]],
+    "o2m_set": [[None, None, None], [0, None, None], [0, 0, None], [0, 1, None], [1, 0, 0], [0, 0, 1]],
+    "o2m_dict": [[None, None, None], [0, None, None], [0, 0, None], [0, 1, None], [1, 0, 0], [0, 0, 1]],
     "o2o": [[None, None, None], [0, None, None], [0, 1, None]],
     # m2m: list of (p, c) associations
     "m2m": [[], [(0, 0)], [(0, 0), (0, 1)], [(0, 0), (1, 0)], [(0, 0), (1, 1), (0, 1)]],
@@ -234,7 +276,46 @@ def _apply_list(lst, step):
             lst.pop()
         else:
             lst.pop(step[3])
-    elif op == "clear":
+    elif op in ("clear", "delattr"):
+        del lst[:]
+    else:
+        raise AssertionError(step)
+
+
+def _dput(lst, m):
+    lst[:] = [x for x in lst if DKEYS[x] != DKEYS[m]] + [m]
+
+
+def _apply_dict(lst, step):
+    """dict semantics (key = DKEYS[member]) on a list of ints with pairwise different keys (in place)"""
+    op = step[0]
+    if op == "dset":
+        _dput(lst, step[3])
+    elif op == "ddel":
+        hit = [x for x in lst if DKEYS[x] == DKEYS[step[3]]]
+        if not hit:
+            raise KeyError(DKEYS[step[3]])
+        lst.remove(hit[0])
+    elif op in ("dpop", "dpop_default"):
+        hit = [x for x in lst if DKEYS[x] == step[3]]
+        if hit:
+            lst.remove(hit[0])
+        elif op == "dpop":
+            raise KeyError(step[3])
+    elif op == "popitem":
+        if not lst:
+            raise KeyError("popitem(): dictionary is empty")
+        lst.pop()  # corrected with the member the real popitem() returned
+    elif op == "setdefault":
+        if not [x for x in lst if DKEYS[x] == DKEYS[step[3]]]:
+            lst.append(step[3])
+    elif op in ("update_map", "update_pairs"):
+        for m in step[3]:
+            if m not in lst:
+                _dput(lst, m)
+    elif op == "replace":
+        lst[:] = list(step[3])
+    elif op in ("clear", "delattr"):
         del lst[:]
     else:
         raise AssertionError(step)
@@ -259,7 +340,7 @@ def _apply_set(lst, step, real_pop=None):
         if not lst:
             raise KeyError("pop from an empty set")
         lst.remove(real_pop if real_pop in lst else lst[0])  # any member conforms
-    elif op == "clear":
+    elif op in ("clear", "delattr"):
         del lst[:]
     elif op == "update":
         for m in step[3]:
@@ -298,6 +379,22 @@ def _real_coll_op(coll, step, pool):
         return coll.pop() if step[3] is None else coll.pop(step[3])
     elif op == "clear":
         coll.clear()
+    elif op == "dset":
+        coll[pool[step[3]].k] = pool[step[3]]
+    elif op == "ddel":
+        del coll[pool[step[3]].k]
+    elif op == "dpop":
+        return coll.pop(step[3])
+    elif op == "dpop_default":
+        return coll.pop(step[3], None)
+    elif op == "popitem":
+        return coll.popitem()[1]
+    elif op == "setdefault":
+        coll.setdefault(pool[step[3]].k, pool[step[3]])
+    elif op == "update_map":
+        coll.update({pool[x].k: pool[x] for x in step[3]})
+    elif op == "update_pairs":
+        coll.update([(pool[x].k, pool[x]) for x in step[3]])
     elif op in ("update", "difference_update", "intersection_update", "symmetric_difference_update"):
         getattr(coll, op)({pool[m] for m in step[3]})
     else:
@@ -319,7 +416,7 @@ class Model:
         return (self.P, self.C) if s == "P" else (self.C, self.P)
 
     def scalar(self, s):
-        return self.kind == "o2o" or (self.kind in ("o2m_list", "o2m_set") and s == "C")
+        return self.kind == "o2o" or (self.kind in ("o2m_list", "o2m_set", "o2m_dict") and s == "C")
 
     def sync(self, s, o, before, after):
         """owner o on side s changed its members from ``before`` to ``after``: complementary change on the other side"""
@@ -338,6 +435,12 @@ class Model:
                                 mine[prev].remove(m)
                     other[m] = [o]
                 elif o not in other[m]:
+                    if self.kind == "o2m_dict":
+                        # the backref stores o under its key in the parent's dict: the member holding that key leaves
+                        for e in list(other[m]):
+                            if DKEYS[e] == DKEYS[o]:
+                                other[m].remove(e)
+                                mine[e] = []
                     other[m].append(o)
 
 
@@ -353,12 +456,14 @@ def _run(kind, init, steps):
     ps = [pcls(i) for i in range(NP[kind])]
     cs = [ccls(i) for i in range(NC[kind])]
     m = Model(kind)
-    setlike = kind == "o2m_set"
+    setlike = kind in ("o2m_set", "o2m_dict")  # unordered comparison, no user-made duplicates possible
 
     def real_state():
         """(P, C) in the model's representation, read from the instances"""
         if kind == "o2o":
             P = [[p.child.ix] if p.child is not None else [] for p in ps]
+        elif kind == "o2m_dict":
+            P = [[c.ix for c in dict.values(p.children)] for p in ps]
         else:
             P = [[c.ix for c in p.children] for p in ps]
         if kind == "m2m":
@@ -408,6 +513,8 @@ def _run(kind, init, steps):
                 continue
             if kind == "o2o":
                 ps[p].child = cs[c]
+            elif kind == "o2m_dict":
+                ps[p].children[cs[c].k] = cs[c]
             elif setlike:
                 ps[p].children.add(cs[c])
             else:
@@ -421,7 +528,7 @@ def _run(kind, init, steps):
         mine, _other = m.side(s)
         owners, pool = (ps, cs) if s == "P" else (cs, ps)
         attr = {"o2m_list": ("children", "parent"), "o2m_set": ("children", "parent"), "o2o": ("child", "parent"),
-                "m2m": ("children", "parents")}[kind][0 if s == "P" else 1]
+                "m2m": ("children", "parents"), "o2m_dict": ("children", "parent")}[kind][0 if s == "P" else 1]
         before = list(mine[o])
         where = "%s.%s:%s" % ("parent" if s == "P" else "child", attr, op)
         expect = None  # expected exception type name
@@ -433,9 +540,15 @@ def _run(kind, init, steps):
                     where += ":target-currently-referenced-by-another-owner"
             else:  # del
                 after = []
+            if kind == "o2m_dict" and op == "set" and step[3] is not None and step[3] not in before and \
+                    any(DKEYS[e] == DKEYS[o] and e != o for e in _other[step[3]]):
+                # the backref stores the child under a key that another member of the parent's dict holds
+                where += ":same-key-member-evicted"
         else:
             try:
-                if setlike:
+                if kind == "o2m_dict":
+                    _apply_dict(after, step)
+                elif setlike:
                     _apply_set(after, step)
                 else:
                     _apply_list(after, step)
@@ -444,6 +557,8 @@ def _run(kind, init, steps):
                 after = list(before)
             if not setlike and len(set(after)) != len(after):
                 raise _Outside()  # the user puts an object into the same list twice
+            if kind == "o2m_dict" and any(DKEYS[a] == DKEYS[b] for a in after if a not in before for b in before if b not in after):
+                where += ":key-taken-over-from-removed-member"
         # the real thing
         raised = None
         popped = None
@@ -455,19 +570,21 @@ def _run(kind, init, steps):
                     delattr(owners[o], attr)
             elif op == "replace":
                 members = [pool[x] for x in step[3]]
-                setattr(owners[o], attr, set(members) if setlike else members)
+                setattr(owners[o], attr, {x.k: x for x in members} if kind == "o2m_dict" else (set(members) if setlike else members))
+            elif op == "delattr":
+                delattr(owners[o], attr)  # _CollectionAttributeImpl.delete -> CollectionAdapter.clear_with_event
             else:
                 popped = _real_coll_op(getattr(owners[o], attr), step, pool)
-        except (IndexError, ValueError, KeyError, AttributeError) as e:
+        except (IndexError, ValueError, KeyError, AttributeError, sa_exc.InvalidRequestError) as e:
             raised = type(e).__name__
         if m.scalar(s) and op == "del":
             # del of an attribute without value may raise AttributeError
             if raised is not None and (raised != "AttributeError" or before):
                 _fail(where + ":unexpected-exception", "%s with value %r" % (raised, before))
         elif raised != expect:
-            _fail(where + ":exception-differs-from-%s" % ("set" if setlike else "list"), "real %r expected %r, members %r step %r"
+            _fail(where + ":exception-differs-from-%s" % ("dict" if kind == "o2m_dict" else "set" if setlike else "list"), "real %r expected %r, members %r step %r"
                   % (raised, expect, before, step))
-        if setlike and op == "pop" and expect is None:
+        if setlike and op in ("pop", "popitem") and expect is None:
             after = [x for x in before if x != popped.ix]
         mine[o] = after
         m.sync(s, o, before, after)
@@ -508,26 +625,31 @@ META = {
         "emit_backref_from_collection_remove_event}",
         "orm.attributes._ScalarObjectAttributeImpl.{set,delete,fire_replace_event,fire_remove_event}, _AttributeImpl.{append,remove,pop}",
         "orm.attributes._CollectionAttributeImpl.{append,remove,pop,set,fire_append_event,fire_remove_event,fire_pre_remove_event}",
-        "orm.collections.{InstrumentedList,InstrumentedSet} mutators, CollectionAdapter.fire_*_event, bulk_replace",
+        "orm.collections.{InstrumentedList,InstrumentedSet} mutators, _dict_decorators, KeyFuncDict.{set,remove}, "
+        "CollectionAdapter.{fire_*_event,clear_with_event}, bulk_replace", "orm.attributes._CollectionAttributeImpl.delete",
         "orm.relationships.RelationshipProperty back_populates wiring (_generate_backref / _add_reverse_property)",
     ],
     "bounds": {
         "quick": {"objects": "2 parents x 3 children (many-to-many 2 x 2), all new (transient)",
                   "history": "2 steps over the full alphabet from 2-3 initial configurations (many-to-many: from the empty one, and "
                              "over the core alphabet from 4 others); 3 steps over the core alphabet from the empty configuration "
-                             "(one-to-one: over the full alphabet)",
+                             "(one-to-one: over the full alphabet; not for many-to-many)",
                   "full alphabet": "append, remove, insert(0|1), [0|1] = c, [0:1] / [1:] = [...], extend, pop(), pop(0), clear, "
                                    "collection replacement, child.parent = p / None, del child.parent; sets: add, remove, discard, "
-                                   "pop, clear, update, difference/intersection/symmetric_difference_update, replacement"},
+                                   "pop, clear, update, difference/intersection/symmetric_difference_update, replacement; `del owner.collection` "
+                                   "on every collection kind; attribute-keyed dict (children 0 and 2 share their key): d[k] = c, del d[k], "
+                                   "pop(k), pop(k, default), popitem, setdefault, update (mapping / pairs), clear, replacement"},
         "thorough": {"history": "2 steps over the full alphabet from every initial configuration; from the empty configuration 3 steps "
-                                "over the full alphabet (one-to-one: 4 steps; many-to-many: 2 steps, and 3 steps over the core alphabet from every initial configuration)"},
+                                "over the full alphabet (one-to-one: 4 steps; many-to-many and keyed dict: 2 steps, and 3 steps over the "
+                                "core alphabet from every initial configuration)"},
     },
     "outside": [
         "'after flush and reload' (needs a database)",
         "histories in which the *user* puts the same object twice into one list (append / insert / [i] = / extend / slice of an "
         "object already in that list): allowed by SQLAlchemy, but then removing one occurrence or moving the object through "
         "the scalar side leaves the other occurrence behind; such histories are abandoned at the duplicating step",
-        "unloaded collections / pending mutations of persistent objects, dynamic / write-only relationships, dict collections",
+        "unloaded collections / pending mutations of persistent objects, dynamic / write-only relationships, keyed dicts other "
+        "than attribute_keyed_dict, changing the key attribute of a member",
         "the order in which backref-induced appends appear (compared as sets)",
     ],
     "stubs": [],
@@ -553,9 +675,11 @@ def harnesses(tier: str) -> List[Harness]:
                 for i in range(1, ninit):
                     sl += _slices(kind, "core", i, 2)
             else:
-                for i in ((0, 3) if kind != "o2o" else range(ninit)):
+                # 5 = two members in one collection, one in the other
+                for i in ((0, 5) if kind != "o2o" else range(ninit)):
                     sl += _slices(kind, "full", i, 2)
-            sl += _slices(kind, "core" if kind != "o2o" else "full", 0, 3)
+            if kind != "m2m":
+                sl += _slices(kind, "core" if kind != "o2o" else "full", 0, 3)
         else:
             for i in range(1, ninit):
                 sl += _slices(kind, "full", i, 2)
@@ -565,6 +689,9 @@ def harnesses(tier: str) -> List[Harness]:
                     sl += _slices(kind, "core", i, 3)
             elif kind == "o2o":
                 sl += _slices(kind, "full", 0, 4)
+            elif kind == "o2m_dict":
+                for i in range(ninit):
+                    sl += _slices(kind, "core", i, 3)
             else:
                 sl += _slices(kind, "full", 0, 3)
     return [Harness("hist", h_hist, sl, budget_s=120 if q else 600)]
